@@ -1,7 +1,7 @@
 (* C02 / C11 / C17: theorems about the GP linear-algebra dataflow REGENERATED from gaussian_process.py,
    gaussian_process_sum.py and log_likelihood.py (coq/Gen/GenGP.v), over an abstract real field.
    LAPACK calls carry their exact-arithmetic meaning (Lib/MxAux.v); the Cholesky factor is a contract. *)
-From mathcomp Require Import all_ssreflect all_algebra.
+From mathcomp Require Import all_ssreflect all_fingroup all_algebra.
 From LV Require Import Lib.MxAux Gen.GenGP.
 Set Implicit Arguments. Unset Strict Implicit. Unset Printing Implicit Defensive.
 Import Order.TTheory GRing.Theory Num.Theory.
@@ -202,3 +202,48 @@ Theorem loglik_value :
   - scaling_factor * ((r^T *m invmx K *m r) 0 0 + 2%:R * sumlogdiag (chol K)).
 Proof. by rewrite /LogLik.log_likelihood_value /LogLik.log_likelihood mulmxA. Qed.
 End LogLik.
+
+(* ------------------------------------------------------------------ ordering of the observations *)
+(* Permuting the observations (rows of the data, of P, and the columns of K_eval) does not change the weights' effect: the
+   permuted system has the permuted weights as its unique saddle-point solution, so the mean is unchanged. *)
+Section Permutation.
+Variable F : realFieldType.
+Variables n m p : nat.
+Variables (K : 'M[F]_n) (P : 'M[F]_(n,p)) (y : 'cV[F]_n) (K_eval : 'M[F]_(m,n)) (Peval : 'M[F]_(m,p)).
+Variable s : 'S_n.
+Let Pm : 'M[F]_n := perm_mx s.
+Let K' := Pm *m K *m Pm^T.
+Let P' := Pm *m P.
+Let y' := Pm *m y.
+Let K_eval' := K_eval *m Pm^T.
+Hypothesis Ku : K \in unitmx.
+Hypothesis PKPu : P^T *m cho_solve K P \in unitmx.
+Hypothesis Ku' : K' \in unitmx.
+Hypothesis PKPu' : P'^T *m cho_solve K' P' \in unitmx.
+
+Let b0 := cho_solve (P^T *m cho_solve K P) (P^T *m cho_solve K y).
+Let a0 := cho_solve K y - cho_solve K (P *m b0).
+Let b1 := cho_solve (P'^T *m cho_solve K' P') (P'^T *m cho_solve K' y').
+Let a1 := cho_solve K' y' - cho_solve K' (P' *m b1).
+
+Lemma PmtPm : Pm^T *m Pm = 1%:M.
+Proof. by rewrite /Pm tr_perm_mx -perm_mxM mulVg perm_mx1. Qed.
+
+Theorem perm_weights : a1 = Pm *m a0 /\ b1 = b0.
+Proof.
+  have [S1 S2] : K *m a0 + P *m b0 = y /\ P^T *m a0 = 0.
+    by split; [exact: (@saddle1 F n p K P y Ku)|exact: (@saddle2 F n p K P y PKPu)].
+  have H1 : K' *m (Pm *m a0) + P' *m b0 = y'.
+    rewrite /K' /P' /y' -!mulmxA [Pm^T *m (Pm *m a0)]mulmxA PmtPm mul1mx -mulmxDr.
+    by rewrite [K *m a0 + _]S1.
+  have H2 : P'^T *m (Pm *m a0) = 0.
+    by rewrite /P' trmx_mul -mulmxA [Pm^T *m (Pm *m a0)]mulmxA PmtPm mul1mx S2.
+  by have [-> ->] := @saddle_unique F n p K' P' y' Ku' PKPu' (Pm *m a0) b0 H1 H2.
+Qed.
+
+Theorem perm_mean_invariant : K_eval' *m a1 + Peval *m b1 = K_eval *m a0 + Peval *m b0.
+Proof.
+  have [-> ->] := perm_weights.
+  by rewrite /K_eval' -mulmxA [Pm^T *m (Pm *m a0)]mulmxA PmtPm mul1mx.
+Qed.
+End Permutation.
